@@ -10,7 +10,11 @@ grids; a recording upstream (HTTPClient.open replaced) and a recording cache (Fi
 observed effects; Coq evaluates Limits.serve_tile / serve_map on the same request and cache state and compares
 answer class and effects.
 Oracle (independent of the model): invalid address / format / dimension value, pixel or tile limit exceeded =>
-error answer and no upstream request and no cache write; every cache coordinate ever touched is inside the grid.
+error answer and no upstream request and no cache write; every cache coordinate ever touched is inside the grid;
+a WMS-C request (tiled=true) that causes any cache or upstream operation has a BBOX that is a tile of the tile set
+(every border within 1/10 request pixel of the tile of some level under its centre; computed with mapproxy.grid /
+gridlib only).  Fixed probes (seed independent): tiled requests 1/8 .. 8 pixels short of a tile at every border
+combination, on two exact grids (also through the correspondence) and on GLOBAL_MERCATOR.
 """
 import io
 import json
